@@ -19,6 +19,9 @@ def obligations(tier):
     for field in (7, 8):
         for mode in (0, 1):
             L.append(ob("merge/elements/field=%d/mode=%d" % (field, mode), ".", "VerifC14Merge", [field, mode], covers=["second-unmarshal"], max_seconds=600))
+    for t in ('{"ba":"??=="}', '{"ba":""}', '{"ia":[?]}', '{"ia":[]}'):
+        for al in (False, True):
+            L.append(ob("short-array/%s/anylength=%d" % (t.replace('"', ''), al), ".", "VerifC14ShortArray", [t, al], max_seconds=600))
     for via in (False, True):
         L.append(ob("null/viajson=%d" % via, ".", "VerifC14Null", [via], covers=["checked"], max_seconds=600))
     return L
